@@ -88,6 +88,44 @@ func main() {
 			names = append(names, fn)
 		}
 	}
+	// every field of the types that are shared as a whole (registry, configuration) is a shared field, whatever it is
+	// called: the struct declarations are read from the source
+	wholeTypes := map[string]string{"Config": "mutex", "ConnManager": "mutex"}
+	for _, f := range files {
+		for _, d := range f.Decls {
+			gd, ok := d.(*ast.GenDecl)
+			if !ok {
+				continue
+			}
+			for _, sp := range gd.Specs {
+				ts, ok := sp.(*ast.TypeSpec)
+				if !ok {
+					continue
+				}
+				st, ok := ts.Type.(*ast.StructType)
+				mu, whole := wholeTypes[ts.Name.Name]
+				if !ok || !whole {
+					continue
+				}
+				for _, fld := range st.Fields.List {
+					for _, nm := range fld.Names {
+						if nm.Name == mu {
+							continue
+						}
+						dup := false
+						for _, sf := range sharedFields {
+							if sf.typ == ts.Name.Name && sf.field == nm.Name {
+								dup = true
+							}
+						}
+						if !dup {
+							sharedFields = append(sharedFields, shared{ts.Name.Name, nm.Name, mu})
+						}
+					}
+				}
+			}
+		}
+	}
 	var table []access
 	var commands []string
 	typeBytes := map[string]string{}
